@@ -1484,4 +1484,8 @@ def signature(prop, clause, case, detail=""):
     every other violation is identified by its clause, graph and dictionary."""
     if detail.startswith("[coalesce-swallow] ") and clause.startswith("later-evaluation"):
         return {"class": "coalesce-swallow-stale-entry"}
+    if clause in ("agree", "sufficient-eval", "sufficient-keys") and any(
+            nd["k"] == "ds" and "ep" in nd.get("effs", []) for nd in case["nodes"]):
+        # the dataset has an effect whose parameter is an option: labrea's keys() does not report it
+        return {"class": "effect-parameter-not-keyed"}
     return {"clause": clause, "nodes": case["nodes"], "tabs": case["tabs"], "o": case["a"]["o"]}
